@@ -140,6 +140,10 @@ FIXED = [
     ('C10', '6ef3686', 'F45 under noDeps an explicitly requested module that has no file of its own but was found '
      'inside another source file was reported untouched and never generated (the filter looked only at the names of '
      'modules read through a requested fetch)', 'C10.T1'),
+    ('C20', 'd08942e', 'F46 mibcopy never copied a module without REVISION into an empty destination (absent copy and '
+     'missing revision both mapped to the epoch, and equal revisions are not copied); reported by a seeding sub-agent '
+     'as an observation on the clean tree, reproduced, then turned into rule C20.R4 loop/absent-destination-older-than-'
+     'any-source', 'C20.R4'),
 ]
 
 out = {
